@@ -1,10 +1,179 @@
 import Ldap3V.Driver.Util
+import Ldap3V.Model.Conn
 namespace Ldap3V.Driver
-open Ldap3V
+open Ldap3V Ldap3V.Conn
 
-/-- line-protocol handler for the `Conn` family of commands; `none` = not mine -/
+def parseKind (s : String) : Option Kind :=
+  if s == "single" then some .single
+  else if s == "search" then some .search
+  else if s == "unbind" then some .unbind
+  else if s.startsWith "abandon:" then (parseInt (s.drop 8).toString).map Kind.abandon
+  else none
+
+def showRes : Res → String
+  | .ack => "ack"
+  | .frame f => s!"frame:{f.tok}"
+  | .timeout => "timeout"
+  | .recvErr => "recverr"
+  | .opSendErr => "opsenderr"
+  | .scrubSendErr => "scrubsenderr"
+
+def parseOptNat (s : String) : Option (Option Nat) :=
+  if s == "none" then some none else s.toNat?.map some
+
+/-- `[1,2,3]` -/
+def parseNatList (s : String) : Option (List Nat) :=
+  let inner := ((s.drop 1).dropEnd 1).toString
+  if inner == "" then some [] else (inner.splitOn ",").mapM (·.toNat?)
+
+def sortNat (l : List Nat) : List Nat := (l.toArray.qsort (· < ·)).toList
+
+def showNatList (l : List Nat) : String := "[" ++ ",".intercalate (l.map toString) ++ "]"
+
+/-- replay one trace event; `Except` message on rejection -/
+def replayEv (s : St) (ev : String) : Except String St :=
+  let w := (ev.splitOn " ").filter (· != "")
+  let stepE (e : Ev) : Except String (St × Obs) :=
+    match step s e with
+    | some r => .ok r
+    | none => .error "not enabled"
+  match w with
+  | ["issue", i, kind, tmo] =>
+    match i.toNat?, parseKind kind, parseOptNat tmo with
+    | some i, some k, some t =>
+      if s.ops.length != i then .error s!"op index {s.ops.length} expected" else
+      match step s (.alloc k) with
+      | some (s1, .id _) =>
+        match step s1 (.enqueue i t) with
+        | some (s2, _) => .ok s2
+        | none => .error "enqueue not enabled"
+      | some (_, _) => .error "alloc panicked"
+      | none => .error "alloc diverges"
+    | _, _, _ => .error "bad issue"
+  | ["poll", i, res] =>
+    match i.toNat? with
+    | some i =>
+      -- a send error was already returned by the enqueue step
+      if (s.ops[i]?.bind (·.res)).map showRes == some res && res == "opsenderr" then .ok s else
+      match step s (.poll i) with
+      | some (s1, .res (some r)) => if showRes r == res then .ok s1 else .error s!"model resolves to {showRes r}"
+      | some (_, .res none) => .error "model: still pending"
+      | _ => .error "poll not enabled"
+    | none => .error "bad poll"
+  | ["recv", i, dl, res] =>
+    match i.toNat?, parseOptNat dl with
+    | some i, some d =>
+      match s.ops[i]? with
+      | some o =>
+        match o.chan with
+        | some c =>
+          match step s (.recv c d) with
+          | some (s1, ob) =>
+            let txt := match ob with
+              | .item (some (.entry f)) => s!"item:entry:{f.tok}"
+              | .item (some (.done f)) => s!"item:done:{f.tok}"
+              | .closed => "closed"
+              | .pending => "pending"
+              | .timeout => "timeout"
+              | .sendErr => "scrubsenderr"
+              | _ => "?"
+            if txt == res then .ok s1 else .error s!"model recv gives {txt}"
+          | none => .error "recv not enabled"
+        | none => .error "not a search"
+      | none => .error "no such op"
+    | _, _ => .error "bad recv"
+  | ["finish", i, b] =>
+    match i.toNat? with
+    | some i =>
+      match s.ops[i]? with
+      | some o =>
+        let s1 := if b == "1" then (match step s (.scrub o.id) with | some (x, _) => x | none => s) else s
+        match o.chan with
+        | some c => (match step s1 (.dropRx c) with | some (x, _) => .ok x | none => .error "dropRx")
+        | none => .error "not a search"
+      | none => .error "no such op"
+    | none => .error "bad finish"
+  | ["drvscrub", id] =>
+    match id.toNat? with
+    | some id =>
+      if s.scrubQ.head? != some id then .error s!"scrub queue head is {s.scrubQ.head?}" else
+      (stepE .drvScrub).map (·.1)
+    | none => .error "bad drvscrub"
+  | ["drvop", id, kind, ok] =>
+    match id.toNat?, parseKind kind with
+    | some id, some k =>
+      match s.opQ.head? with
+      | some i =>
+        match s.ops[i]? with
+        | some o =>
+          if o.id != id || o.kind != k then .error s!"op queue head is id {o.id}" else
+          if ok == "ok" && s.sinkClosed then .error "write succeeded after the sink was closed" else
+          (stepE (.drvOp (ok == "ok"))).map (·.1)
+        | none => .error "dangling op index"
+      | none => .error "op queue empty"
+    | _, _ => .error "bad drvop"
+  | ["drvresp", id, ok] =>
+    match parseInt id with
+    | some id =>
+      match s.srvLog[s.pos]? with
+      | some f =>
+        if f.id != id then .error s!"next frame has id {f.id}" else
+        match stepE .drvResp with
+        | .ok (s1, _) =>
+          if ok == "bad" && s1.drv != .endedErr then .error "model: frame accepted"
+          else if ok == "ok" && s1.drv != .running then .error "model: driver ends on this frame"
+          else .ok s1
+        | .error e => .error e
+      | none => .error "no frame available"
+    | none => .error "bad drvresp"
+  | ["drvend", how] =>
+    if how == "eof" then
+      if s.srvLog.length != s.pos || s.link != .eof then .error "model: not at EOF" else (stepE .drvResp).map (·.1)
+    else if how == "recverr" then
+      if s.srvLog.length != s.pos || s.link != .garbage then .error "model: no receive error due" else (stepE .drvResp).map (·.1)
+    else if how == "opclosed" then (stepE .drvOpClosed).map (·.1)
+    else .error "bad drvend"
+  | ["drvresult", r] =>
+    if (r == "ok" && s.drv == .endedOk) || (r == "err" && s.drv == .endedErr) then .ok s
+    else .error s!"model driver state differs"
+  | ["maps", r, sm] =>
+    let mr := showNatList (sortNat (s.resultmap.map (·.1)))
+    let ms := showNatList (sortNat (s.searchmap.map (·.1)))
+    if r == "r=" ++ mr && sm == "s=" ++ ms then .ok s else .error s!"model maps r={mr} s={ms}"
+  | ["srvsend", id, op, tok, good] =>
+    match parseInt id, op.toNat?, tok.toNat? with
+    | some id, some op, some tok => (stepE (.srvSend ⟨id, op, tok, good == "1"⟩)).map (·.1)
+    | _, _, _ => .error "bad srvsend"
+  | ["srvclose"] => (stepE .srvClose).map (·.1)
+  | ["srvgarbage"] => (stepE .srvGarbage).map (·.1)
+  | ["tick", dt] =>
+    match dt.toNat? with
+    | some dt => (stepE (.tick dt)).map (·.1)
+    | none => .error "bad tick"
+  | ["tbl", last, used] =>
+    match last.toNat?, parseNatList used with
+    | some l, some u =>
+      if s.last == l && sortNat s.inUse == u then .ok s
+      else .error s!"model table last={s.last} inUse={showNatList (sortNat s.inUse)}"
+    | _, _ => .error "bad tbl"
+  | ["drophandles"] => (stepE .dropHandles).map (·.1)
+  | [] => .ok s
+  | _ => .error "unknown event"
+
+def replay (line : String) : String := Id.run do
+  let evs := line.splitOn " ; "
+  let mut s : St := Conn.init
+  let mut k := 0
+  for ev in evs do
+    match replayEv s ev with
+    | .ok s' => s := s'
+    | .error e => return s!"reject@{k} [{ev}] {e}"
+    k := k + 1
+  return "accept"
+
 def handleConn (cmd arg : String) : Option String :=
   match cmd with
+  | "conn.trace" => some (replay arg)
   | _ => none
 
 end Ldap3V.Driver
